@@ -11,6 +11,7 @@ import (
 	"github.com/ipld/go-car/v2/internal/carv1"
 	internalio "github.com/ipld/go-car/v2/internal/io"
 	"github.com/ipld/go-car/v2/verifhook"
+	"github.com/multiformats/go-multihash"
 	"github.com/multiformats/go-varint"
 )
 
@@ -198,6 +199,12 @@ func Resume(
 		remaining := int64(length) - int64(n)
 		if remaining < 0 {
 			return fmt.Errorf("section at offset %d is shorter than its CID", sectionOffset)
+		}
+		// The data of a block under an identity CID is its digest; bytes that announce anything else
+		// are not a section. (The index an interrupted Finalize left behind the payload begins with
+		// bytes that read as an identity CID with an empty digest, followed by a kilobyte of "data".)
+		if dmh, err := multihash.Decode(c.Hash()); err == nil && dmh.Code == multihash.IDENTITY && int64(dmh.Length) != remaining {
+			return fmt.Errorf("section at offset %d has %d bytes of data under an identity CID of %d digest bytes", sectionOffset, remaining, dmh.Length)
 		}
 		if remaining > 0 {
 			pos, err := v1r.Seek(0, io.SeekCurrent)
